@@ -71,6 +71,9 @@ func genC09(ref core.CaseRef, r *rand.Rand) *c09Case {
 			}
 			if hostile && r.Intn(3) == 0 {
 				doms[i].vals = append(doms[i].vals, nil)
+				if r.Intn(2) == 0 {
+					doms[i].vals = append(doms[i].vals, `\N`) // a text that spells a NULL marker, next to NULL
+				}
 			}
 		}
 		allVals = append(allVals, doms[i].vals...)
